@@ -36,11 +36,18 @@ func c17Span(i int) (trace.SpanContext, refwire.Span) {
 	}
 	cfg := trace.SpanContextConfig{TraceID: trace.TraceID{0xf0, 1, 2, 3, 4, 5, 6, 7, 8, 9, 10, 11, 12, 13, 14, 0x0f}, SpanID: trace.SpanID{0xa0, 2, 3, 4, 5, 6, 7, 0x0a}}
 	rs := refwire.Span{Valid: true, TraceID: cfg.TraceID, SpanID: cfg.SpanID}
-	if i >= 2 {
+	if i == 2 || (i >= 3 && i%2 == 1) {
 		ts, _ := trace.ParseTraceState("vendor=value,other=1")
 		cfg.TraceState = ts
+		rs.TraceState = "vendor=value,other=1"
+	}
+	if i == 2 {
 		cfg.TraceFlags = trace.FlagsSampled
-		rs.TraceState, rs.Flags = "vendor=value,other=1", 1
+		rs.Flags = 1
+	}
+	if i >= 3 { // the flags field is one byte on the wire: all 256 values
+		cfg.TraceFlags = trace.TraceFlags(byte(i - 3))
+		rs.Flags = byte(i - 3)
 	}
 	return trace.NewSpanContext(cfg), rs
 }
@@ -85,7 +92,7 @@ func c17Messages() []msg17 {
 						return d, want, leftover(r), err
 					}, ""
 			}},
-		{name: "Query", fields: 14, alph: []int{6, 6, 6, 3, 2, 3, 3, 6, 6, 3, 6, 8, 3, 3},
+		{name: "Query", fields: 14, alph: []int{6, 6, 6, 3, 2, 3, 3, 6, 6, 3 + 256, 6, 8, 3, 3},
 			build: func(c []int, rev int) (func() []byte, []byte, func([]byte) (any, any, int, error), string) {
 				sc, rs := c17Span(c[9])
 				m := proto.Query{ID: str(c[0]), Body: str(c[1]), Secret: str(c[2]), Stage: []proto.Stage{proto.StageComplete, proto.StageFetchColumns, proto.StageWithMergeableState}[c[3]], Compression: proto.Compression(c[4]),
@@ -307,7 +314,7 @@ func revClass(rev int) string {
 
 // C17 — protocol messages encode and decode symmetrically at every revision.
 func C17(c *vk.Ctx) {
-	c.Rule("messages {ClientHello, ServerHello, Query with ClientInfo / Settings / Parameters, ClientData, Block header + info, Progress, Profile, Exception, TableColumns} with <= 2 fields deviating from the base value over per-field alphabets (strings empty / 1 / 127 / 128 / 300 bytes / non-UTF-8; integers 0, 1, 127, 128, 16383, 16384, 2^31-1, 2^63-1; every enum member; span contexts) x revisions (quick: threshold-neighbour set 50000..54480; thorough: every revision 50000..54500). Oracle: library encoding = reference encoding byte for byte; library decoding of it = the message as far as the revision carries it, with zero unread bytes. distinct_nontrivial = distinct (message, field vector, revision) triples.")
+	c.Rule("messages {ClientHello, ServerHello, Query with ClientInfo / Settings / Parameters, ClientData, Block header + info, Progress, Profile, Exception, TableColumns} with <= 2 fields deviating from the base value over per-field alphabets (strings empty / 1 / 127 / 128 / 300 bytes / non-UTF-8; integers 0, 1, 127, 128, 16383, 16384, 2^31-1, 2^63-1; every enum member; span contexts: none, valid, valid with trace state, and every value 0..255 of the one-byte trace flags) x revisions (quick: threshold-neighbour set 50000..54480; thorough: every revision 50000..54500). Oracle: library encoding = reference encoding byte for byte; library decoding of it = the message as far as the revision carries it, with zero unread bytes. distinct_nontrivial = distinct (message, field vector, revision) triples.")
 	revs := refwire.RevSet(50000, 54480)
 	if !c.Quick() {
 		revs = revs[:0]
